@@ -157,6 +157,13 @@ impl Property for C19 {
             p.responder = Some(ResponderCfg { records: ir.all(), delay_ms: 20, honor_known_answers: true, additionals: true, active: true, max_answers: None, skip_first: 0, conflict_probes: 0 });
             s.peers.push(p);
             s.horizon_ms = s.horizon_ms.min(3 * 3600_000);
+            // in half of the worlds an instance is advertised by its PTR alone and never becomes resolvable: exactly the
+            // three follow-up queries are allowed for it
+            if rng.bool() {
+                let ghost = instance_recs(&ty, "ghost", "ghosthost.local.", 1, &[], &[], vec![0], 4500, 120);
+                let pi = s.peers.len() - 1;
+                s.op(2500 + rng.below(20_000), Op::PeerSend { p: pi, v4: true, sport: 5353, msg: announce(&[ghost.ptr.clone()]), to: Dest::Mcast });
+            }
         }
         s.sort_ops();
         s
@@ -379,8 +386,12 @@ impl Property for C19 {
                         }
                     }
                 }
-                let founds = tr.events.iter().filter(|e| e.d == d && matches!(&e.ev, EvKind::Found(..))).count() as u64;
-                allow += 3 * founds.max(1) + 3 * tr.events.iter().filter(|e| e.d == d && matches!(&e.ev, EvKind::Removed(..))).count() as u64;
+                // follow-ups: three per ServiceFound / ServiceRemoved of that very instance (questions on an instance name),
+                // three per such event of any instance for the address questions of its host
+                let about = |n: &str| -> bool { !matches!(ty, wire::T_ANY | wire::T_SRV | wire::T_TXT) || Name::from_dotted(n).eq_ci(&name) };
+                let founds = tr.events.iter().filter(|e| e.d == d && matches!(&e.ev, EvKind::Found(_, n) if about(n))).count() as u64;
+                let removed = tr.events.iter().filter(|e| e.d == d && matches!(&e.ev, EvKind::Removed(_, n) if about(n))).count() as u64;
+                allow += 3 * founds + 3 * removed;
                 allow += 2 * scn.ops.iter().filter(|o| matches!(o.op, Op::Verify { .. })).count() as u64;
                 j.judgements += 1;
                 if n > allow * n_chan {
